@@ -29,6 +29,7 @@ CODES = {
     6: "observation list and store differ in length",
     7: "a live Running plan was not resumed but closed with reason ExceedRecovery",
     8: "the Vault implements storage.Recovery but coercion.New used it (Search/Read/Update*) before calling Recovery(), or never called it",
+    10: "the Update* calls that closed an aged plan are not the model's write list (the plan row first, then every other row in walk order)",
     9: "inconclusive: the age boundary fell between the clock readings before and after coercion.New",
 }
 
@@ -93,12 +94,18 @@ def run(ctx):
         def klass(x):
             c, o, why, monfalse = x
             code = code_of.get(id(c))
+            if c["dist"].get("crash_after_write"):
+                return "crash-during-close"
             if o and o.get("status") == "Running" and o.get("after_status") == "Failed" and o.get("running_after", 0) > 0:
                 return "aged-plan-half-closed"
             if code == 7:
                 return "live-plan-closed"
             if code == 8:
                 return "vault-used-before-its-recovery"
+            if c["dist"].get("crash_after_write"):
+                return "crash-during-close"
+            if code == 10 or (o and o.get("status") == "Running" and o.get("after_reason") == "FRExceedRecovery" and o.get("first_row_written", 0) > 0):
+                return "close-write-order"
             if c["dist"].get("stale_index_plans") and o is not None and (c.get("observed") or []).index(o) in c["dist"]["stale_index_plans"]:
                 return "terminal-plan-listed-by-stale-index-touched"
             return "code-%s" % code
@@ -118,6 +125,12 @@ def run(ctx):
                     plan_obs.get("after_status"), plan_obs.get("after_reason"))
                 if str(plan_obs.get("witness", "")).startswith("attempt."):
                     why += " -- the recent record is an attempt: lastUpdate ignores attempts"
+            elif k == "close-write-order" and plan_obs:
+                why += " -- the first Update* call of the close rewrote row %s of the plan in walk order (0 = the plan row, which the model writes first: that is what takes the plan out of the Running set and makes the close crash-safe, theorem c11_close_is_crash_safe)" % plan_obs.get("first_row_written")
+            elif k == "crash-during-close" and plan_obs:
+                why += " -- incarnation 1 died after write %s of start-up recovery (closing a stale Running plan), incarnation 2 then opened the same store: afterwards %s/%s, %d plugin call(s) over both incarnations, %d vault write(s) by incarnation 2, %d object(s) Running" % (
+                    c["dist"].get("crash_after_write"), plan_obs.get("after_status"), plan_obs.get("after_reason"), plan_obs.get("plugin_calls", 0),
+                    plan_obs.get("vault_writes", 0), plan_obs.get("running_after", 0))
             elif k == "vault-used-before-its-recovery":
                 why = "the Vault implements storage.Recovery; calls in order of first use: %s; calls made before Recovery(): %s" % (
                     c["dist"].get("vault_call_order"), (c["dist"].get("calls_before_recovery") or [])[:8])
@@ -136,6 +149,9 @@ def run(ctx):
                            % (ctx.seed, ctx.tier, c["input"].get("index"))),
                 nofail=not monfalse)
 
+    crash_cases = [c for c in good if c["dist"].get("crash_after_write")]
+    half = [(c, d) for c in crash_cases for d in (c.get("observed") or [])[:1]
+            if d["status"] == "Running" and d["after_status"] == "Failed" and d.get("running_after", 0) > 0]
     plans = [d for c in good for d in (c.get("observed") or [])]
     resumed = [d for d in plans if d["plugin_calls"] + d["vault_writes"] > 0 and d["after_reason"] != "FRExceedRecovery"]
     aged = [d for d in plans if d["status"] == "Running" and d["after_reason"] == "FRExceedRecovery" and d["after_status"] == "Failed"]
@@ -158,9 +174,22 @@ def run(ctx):
         traces_validated_against_impl=len(good),
         stores=len(cases), stores_observed=len(good), stores_lost=[dict(id=c["id"], note=c.get("note", "")[:400]) for c in lost][:10],
         inconclusive_boundary=len(inconclusive),
+        crash_during_close=dict(
+            cases=len(crash_cases), stores=len({c["input"]["index"] for c in crash_cases}),
+            what="a stale Running plan is closed by an incarnation that dies after the j-th Update* of start-up recovery, for every j of the close; "
+                 "a second incarnation then opens the same store; the model (plan row first) predicts: never handed to runPlan, no plugin call, no write by the second incarnation",
+            observation_not_alarmed="after a crash mid-close the plan row is Failed/ExceedRecovery, so no later start-up considers the plan and the objects the "
+                                    "interrupted close had not yet written STAY Running for good (model and implementation agree; c11_ex_crash_leaves_children_running)",
+            cases_with_objects_left_running=len(half),
+            example=(dict(case=half[0][0]["id"], j=half[0][0]["dist"]["crash_after_write"], objects=half[0][1]["objects"],
+                          left_running=half[0][1]["running_after"], input=half[0][0]["input"]) if half else None)),
         plans_resumed=len(resumed), plans_aged_out=len(aged), plans_unfinished_at_deadline=len(unfinished),
         distribution=dict(
             plans_per_store=fw.histogram(c["dist"]["plans"] for c in good),
+            case_kind=fw.histogram(c.get("kind") for c in good),
+            crash_after_write_j=fw.histogram(c["dist"].get("crash_after_write") for c in crash_cases),
+            first_row_written_when_closing=fw.histogram(d.get("first_row_written") for c in good if not c["dist"].get("crash_after_write")
+                                                        for d in (c.get("observed") or []) if d["status"] == "Running" and d["after_reason"] == "FRExceedRecovery"),
             recovery_flag=fw.histogram(c["dist"]["recovery"] for c in good),
             max_age=fw.histogram(c["dist"]["max_age"] for c in good),
             file_backed=fw.histogram(c["dist"]["file_backed"] for c in good),
@@ -192,5 +221,6 @@ def run(ctx):
         "Wait's knowledge of an id is not directly observable through the public API (Workstream.Wait falls back to Read for unknown ids); it is observed through the waiting itself",
         "the harness's abstraction of plans to Coq terms (ids interned per store), its own walk-order traversal, the logging/limiting vault wrappers",
         "storage.Recovery contract: 30% of the stores are opened through a Vault wrapper that implements storage.Recovery and whose Search(Running) lists one or two durably terminal plans as Running until Recovery() has been called (a search index that lags the plan rows after a crash, as cosmosdb's can); observed: Recovery() is called before the first Search/Read/Update*, and the listed plan is neither executed nor written (theorem c11_storage_recovery_first; the real cosmosdb Recovery is not exercised here)",
+        "crash during the close: the first incarnation is cut off by a vault wrapper that drops every Update* after the j-th (what the store sees of a process that died there); the order of the Update* calls of every close is compared with the model's write list (plan row first; theorem c11_close_is_crash_safe)",
         "lastUpdate counts the start/end of every object and of every attempt of every action (since fix d8f84b2, R4); the 'attempt-recent' cases (all states far older than maxAge, one attempt 1 ms old) must be resumed",
     ])
